@@ -310,6 +310,12 @@ func (bn *baseNode) setOwner(uid, gid int, u avfs.UserReader, checkPerm bool) bo
 		if gid != -1 && (bn.uid != u.Uid() || (gid != u.Gid() && gid != bn.gid)) {
 			return false
 		}
+
+		dropBits := bn.mode&fs.ModeSetuid != 0 || bn.mode&fs.ModeSetgid != 0 && (bn.mode&0o010 != 0 || u.Gid() != bn.gid)
+		if bn.uid != u.Uid() && bn.mode.IsRegular() && dropBits {
+			// only the owner can drop the set-user-ID and set-group-ID bits (see below).
+			return false
+		}
 	}
 
 	if bn.mode.IsRegular() {
@@ -475,6 +481,21 @@ func (fn *fileNode) setMode(mode fs.FileMode, u avfs.UserReader) bool {
 	fn.mode |= mode & avfs.FileModeMask
 
 	return true
+}
+
+// removePrivs clears the set-user-ID bit of the file, and its set-group-ID bit if the file is group executable
+// or if the user is not in the group of the file,
+// when its content is changed by a user who is not the administrator (as write(2) and truncate(2)).
+func (fn *fileNode) removePrivs(u avfs.UserReader) {
+	if u.IsAdmin() {
+		return
+	}
+
+	fn.mode &^= fs.ModeSetuid
+
+	if fn.mode&0o010 != 0 || u.Gid() != fn.gid {
+		fn.mode &^= fs.ModeSetgid
+	}
 }
 
 // size returns the size of the file.
